@@ -389,7 +389,7 @@ pub fn gen_schema(rng: &mut StdRng, max_nodes: usize, wild: bool) -> RawSchema {
 	SchemaGen::new(rng, max_nodes, wild).gen_root()
 }
 
-pub const I_POOL: [i128; 40] = [
+pub const I_POOL: [i128; 47] = [
 	0,
 	1,
 	-1,
@@ -430,7 +430,34 @@ pub const I_POOL: [i128; 40] = [
 	(1i128 << 96) - 1,
 	-(1i128 << 96),
 	i128::MAX,
+	// values a lossy `as` conversion between same-width integer types would wrap to something
+	// small (`u64 as i64`, `u32 as i32`)
+	u64::MAX as i128 - 6,
+	u64::MAX as i128 - (1 << 31),
+	(1i128 << 63) + 5,
+	u32::MAX as i128 - 6,
+	(1i128 << 31) + 5,
+	u16::MAX as i128 - 6,
+	(1i128 << 15) + 5,
 ];
+
+/// `u128` values at or above 2^127: the ones a `u128 as i128` reinterpretation sends to
+/// representable negatives (close to 2^128) and to the extremes.
+pub fn gen_wrapping_u128(rng: &mut StdRng) -> u128 {
+	let k: u128 = match rng.gen_range(0..10) {
+		0 => 0,
+		1 => rng.gen_range(1..300),
+		2 => (1 << 31) - 1,
+		3 => 1 << 31,
+		4 => (1 << 31) + 1,
+		5 => (1 << 63) - 1,
+		6 => 1 << 63,
+		7 => (1 << 63) + 1,
+		8 => rng.gen::<u64>() as u128,
+		_ => return (1u128 << 127) + if rng.gen() { 0 } else { rng.gen_range(0..300) },
+	};
+	u128::MAX - k
+}
 
 pub fn gen_int_in(rng: &mut StdRng, lo: i128, hi: i128) -> i128 {
 	if rng.gen_bool(0.5) {
@@ -532,6 +559,7 @@ impl<'a> ValueGen<'a> {
 				let v = gen_int_in(self.rng, i128::MIN, i128::MAX);
 				self.int_sv(v)
 			}
+			2 if self.rng.gen() => SV::Int(IntTy::U128, BigI::Pos(gen_wrapping_u128(self.rng))),
 			2 => SV::Int(IntTy::U128, BigI::Pos(self.rng.gen::<u128>() | (1 << 127))),
 			3 => SV::F32(*F32_POOL.choose(self.rng).unwrap()),
 			4 => SV::F64(*F64_POOL.choose(self.rng).unwrap()),
@@ -927,6 +955,10 @@ pub fn mutate(rng: &mut StdRng, v: &mut SV) {
 				if !val.fits(*t) {
 					*val = BigI::Pos(0);
 				}
+			}
+			1 if rng.gen_bool(0.25) => {
+				*t = IntTy::U128;
+				*val = BigI::Pos(gen_wrapping_u128(rng));
 			}
 			1 => {
 				let nv = BigI::from_i128(*I_POOL.choose(rng).unwrap());
